@@ -442,8 +442,11 @@ Bn("benign_thread_subclass", "job thread as a Thread subclass",
 Bn("benign_shorter_idle_sleep", "idle wake-up every 1 s instead of 5 s (both layers)",
    ("j1939/j1939_21.py", "        next_wakeup = now + 5.0 # wakeup in 5 seconds", "        next_wakeup = now + 1.0 # wakeup in 1 second"),
    ("j1939/j1939_22.py", "        next_wakeup = now + 5.0 # wakeup in 5 seconds", "        next_wakeup = now + 1.0 # wakeup in 1 second"))
-Bn("benign_extra_wakeups", "redundant job-thread wake-up after every received TP.DT (J1939-22 had it commented out)",
-   ("j1939/j1939_22.py", "        #self.__job_thread_wakeup()", "        self.__job_thread_wakeup()"))
+Bn("benign_extra_wakeups", "redundant second job-thread wake-up after every received FD.TP.DT inside a window",
+   ("j1939/j1939_22.py", "        # (the job thread may be sleeping towards the later T2 deadline set with the CTS)\n        self.__job_thread_wakeup()\n",
+    "        # (the job thread may be sleeping towards the later T2 deadline set with the CTS)\n        self.__job_thread_wakeup()\n        self.__job_thread_wakeup()\n"))
+M("tp22_no_wakeup_for_t1", ["C06"], "D46 reverted: no wake-up for the T1 deadline of a J1939-22 receive session",
+  ("j1939/j1939_22.py", "        # (the job thread may be sleeping towards the later T2 deadline set with the CTS)\n        self.__job_thread_wakeup()\n", ""))
 Bn("benign_eager_session_cleanup", "J1939-21: send session removed in the EndOfMsgACK handler's job pass without waiting (deadline already now) - reorder of two assignments",
    ("j1939/j1939_21.py", "            self._snd_buffer[buffer_hash]['state'] = self.SendBufferState.TRANSMISSION_FINISHED\n            self._snd_buffer[buffer_hash]['deadline'] = time.time()\n            self.__job_thread_wakeup()\n        elif control_byte == self.ConnectionMode.BAM:",
     "            self._snd_buffer[buffer_hash]['deadline'] = time.time()\n            self._snd_buffer[buffer_hash]['state'] = self.SendBufferState.TRANSMISSION_FINISHED\n            self.__job_thread_wakeup()\n        elif control_byte == self.ConnectionMode.BAM:"))
